@@ -187,5 +187,18 @@ P("C34", "exploration",
   [H("main", "h_node2", 3000, 300000, hprop="C34")], [A_SAN, "NatTraversalManager::TestHooks::stun_override (existing repository test hook) supplies the discovered address"],
   {"advertise.cases": 3000, "advertise.stun-address-nonroutable": 1000, "advertise.must-publish-cases": 100})
 
+P("C25", "exploration",
+  "case = stepped history (the harness owns the event loop and chooses which ready socket is served next) of 10..70 REGISTER / re-REGISTER (also while claimed) / CONNECT (self, unknown, claimed; split across writes) / identity (split) / data / close operations from 2..6 real TCP clients over 1..3 peer ids; "
+  "every data byte belongs to a unique token <client:seq>; after each served event: bytes queued to a session must come from its symmetric Bridged partner, partner links symmetric, a claimed session is not in the registry; at the end: tail bursts on live bridges arrive complete, in order and nowhere else, "
+  "token streams in send order, closing one side gives the other EOF; distinct = operation-sequence hash",
+  [H("stepped", "h_relay", 3000, 300000, hprop="C25")], [A_SAN, "bridge facts (state, partner) are read from the server's session objects; loopback TCP delivery is awaited with FIONREAD/poll, reads are exact-count"],
+  {"relay.forwarding-steps-observed": 1000, "delivery.bridge-directions-checked": 300, "disconnect.bridge-teardowns-checked": 150, "ops.re-register-while-claimed": 100})
+
+P("C26", "exploration",
+  "case = stepped run of 1..6 TCP clients sending partial lines, every prefix of valid dialogue pieces, 1 MiB lines without newline, CRLF, NUL/binary, malformed commands, identity fragments of 0..32 bytes, then leaving in random order (graceful FIN or RST); "
+  "oracle after stepping to quiescence: sessions_ and registered_ empty, /proc/self/fd back to the pre-client set, the server still accepts and answers a new client, no sanitizer report; distinct = operation-sequence hash",
+  [H("stepped", "h_relay", 2000, 300000, hprop="C26")], [A_SAN],
+  {"release.all-clients-left": 1500, "release.post-run-probes": 1500, "streams.huge-lines": 300, "streams.abrupt-resets": 500})
+
 NOT_APPLICABLE = {}
 HOOK_COMMITS = []
